@@ -965,6 +965,34 @@ func (k *checker) checkAVC(smp, strm []byte) {
 			}
 		}
 	}
+	// recycled sample buffer: see checkHEVC
+	if n > 0 && len(smp)-len(units[n-1]) >= 8 && !k.failed {
+		off := len(smp) - len(units[n-1])
+		oldHdr := smp[off]
+		for _, nt := range []int{5, 1, 7, 6} {
+			if nt == m.types[n-1] {
+				continue
+			}
+			smp[off] = oldHdr&0xe0 | byte(nt)
+			types2 := append(append([]int{}, m.types[:n-1]...), nt)
+			c.Count("recycled_buffer_samples", 1)
+			if k.guard("avc.FindNaluTypes", func() { tl = avc.FindNaluTypes(smp) }) && !eqTypes(toInts(tl), types2) {
+				k.viol("avc.FindNaluTypes", "recycled-buffer/types", fmt.Sprintf("%v for a sample with unit types %v that arrived in the buffer of a sample with types %v", toInts(tl), types2, m.types))
+			}
+			wantIDR := false
+			for _, t := range types2 {
+				wantIDR = wantIDR || t == 5
+			}
+			var got bool
+			if k.guard("avc.IsIDRSample", func() { got = avc.IsIDRSample(smp) }) && got != wantIDR {
+				k.viol("avc.IsIDRSample", fmt.Sprintf("recycled-buffer/%v-for-%v", got, !got), fmt.Sprintf("%v for unit types %v in a recycled buffer (before: %v)", got, types2, m.types))
+			}
+			if k.failed {
+				break
+			}
+		}
+		smp[off] = oldHdr
+	}
 }
 
 // checkExtractOfType covers ExtractNalusOfTypeFromByteStream for every type
@@ -1101,4 +1129,37 @@ func (k *checker) checkHEVC(smp, strm []byte) {
 	k.checkExtractOfType("hevc.ExtractNalusOfTypeFromByteStream", m, 64, func(t int, stop bool) [][]byte {
 		return hevc.ExtractNalusOfTypeFromByteStream(hevc.NaluType(t), strm, stop)
 	}, annexb.HEVCIsVCL)
+	// the caller recycles its sample buffer: the next access unit arrives at the same address with the same
+	// length and the same leading bytes, only the type of its last unit differs
+	if n > 0 && len(smp)-len(units[n-1]) >= 8 && !k.failed {
+		off := len(smp) - len(units[n-1])
+		oldHdr := smp[off]
+		for _, nt := range []int{19, 1, 21, 35} {
+			if nt == m.types[n-1] {
+				continue
+			}
+			smp[off] = oldHdr&0x81 | byte(nt<<1)
+			types2 := append(append([]int{}, m.types[:n-1]...), nt)
+			c.Count("recycled_buffer_samples", 1)
+			if k.guard("hevc.FindNaluTypes", func() { tl = hevc.FindNaluTypes(smp) }) && !eqTypes(toInts(tl), types2) {
+				k.viol("hevc.FindNaluTypes", "recycled-buffer/types", fmt.Sprintf("%v for a sample with unit types %v that arrived in the buffer of a sample with types %v", toInts(tl), types2, m.types))
+			}
+			wantRAP, wantIDR := false, false
+			for _, t := range types2 {
+				wantRAP = wantRAP || t >= 16 && t <= 23
+				wantIDR = wantIDR || t == 19 || t == 20
+			}
+			var got bool
+			if k.guard("hevc.IsRAPSample", func() { got = hevc.IsRAPSample(smp) }) && got != wantRAP {
+				k.viol("hevc.IsRAPSample", fmt.Sprintf("recycled-buffer/%v-for-%v", got, !got), fmt.Sprintf("%v for unit types %v in a recycled buffer (before: %v)", got, types2, m.types))
+			}
+			if k.guard("hevc.IsIDRSample", func() { got = hevc.IsIDRSample(smp) }) && got != wantIDR {
+				k.viol("hevc.IsIDRSample", fmt.Sprintf("recycled-buffer/%v-for-%v", got, !got), fmt.Sprintf("%v for unit types %v in a recycled buffer (before: %v)", got, types2, m.types))
+			}
+			if k.failed {
+				break
+			}
+		}
+		smp[off] = oldHdr
+	}
 }
